@@ -312,7 +312,7 @@ fn build_db(r: &mut Rng, id: u64) -> Built {
         ok
     };
     let ntab = 1 + r.below(3) as usize;
-    let rare = id % 5 == 4;
+    let rare = id % 8 == 7;
     let mut tables: Vec<(String, Vec<ColSpec>)> = Vec::new();
     if r.chance(1, 6) {
         step(&mut db, format!("CREATE ROLE role{}", r.below(3)), &mut hist);
@@ -440,6 +440,54 @@ fn facts(db: &Database) -> Facts {
     f
 }
 
+/// the value strings that differ between two row listings of identical shape (None: shapes differ)
+fn value_diffs(a: &[String], b: &[String]) -> Option<Vec<(String, String)>> {
+    if a.len() != b.len() {
+        return None;
+    }
+    let mut out = Vec::new();
+    for (ta, tb) in a.iter().zip(b.iter()) {
+        let (ra, rb): (Vec<&str>, Vec<&str>) = (ta.split(" ; ").collect(), tb.split(" ; ").collect());
+        if ra.len() != rb.len() {
+            return None;
+        }
+        for (x, y) in ra.iter().zip(rb.iter()) {
+            // values are separated by "),(" ; split conservatively on ",(B"
+            let (vx, vy): (Vec<&str>, Vec<&str>) = (x.split(",(B").collect(), y.split(",(B").collect());
+            if vx.len() != vy.len() {
+                return None;
+            }
+            for (p, q) in vx.iter().zip(vy.iter()) {
+                if p != q {
+                    out.push((p.to_string(), q.to_string()));
+                }
+            }
+        }
+    }
+    Some(out)
+}
+
+fn float_bits_of(s: &str) -> Option<(String, i128)> {
+    for ctor in ["VNumeric ", "VDouble ", "VFloat ", "VReal "] {
+        if let Some(p) = s.find(ctor) {
+            let rest = &s[p + ctor.len()..];
+            let digits: String = rest.chars().take_while(|c| c.is_ascii_digit()).collect();
+            return digits.parse().ok().map(|n| (ctor.to_string(), n));
+        }
+    }
+    None
+}
+
+fn char_bytes_of(s: &str) -> Option<Vec<u8>> {
+    let p = s.find("VCharacter [")?;
+    let rest = &s[p + "VCharacter [".len()..];
+    let inner = &rest[..rest.find(']')?];
+    if inner.is_empty() {
+        return Some(vec![]);
+    }
+    inner.split(';').map(|x| x.trim().parse().ok()).collect()
+}
+
 fn classify(fmt: &str, f: &Facts, orig: &Observation, re: Result<&Observation, &str>) -> Option<(&'static str, String)> {
     let binary = fmt != "json";
     match re {
@@ -487,7 +535,39 @@ fn classify(fmt: &str, f: &Facts, orig: &Observation, re: Result<&Observation, &
                 format!("index-driven query results differ: {}", d)
             };
             let only_index_queries = o.schema == orig.schema && o.rows == orig.rows && o.indexes == orig.indexes && o.queries == orig.queries;
-            let cls = if only_index_queries && binary && f.has_index {
+            let diffs = if o.schema == orig.schema { value_diffs(&orig.rows, &o.rows) } else { None };
+            let all_diffs = |p: &dyn Fn(&str, &str) -> bool| diffs.as_ref().map(|d| !d.is_empty() && d.iter().all(|(a, b)| p(a, b))).unwrap_or(false);
+            // a CHAR(n) value holding non-ASCII text was padded by characters and is cut by bytes on reload
+            let char_renorm = |a: &str, b: &str| match (char_bytes_of(a), char_bytes_of(b)) {
+                (Some(x), Some(y)) => x.iter().any(|c| *c >= 128) && y.len() < x.len() && x.starts_with(&y),
+                _ => false,
+            };
+            // serde_json's default float parser is not correctly rounded: last-place differences
+            let float_ulp = |a: &str, b: &str| match (float_bits_of(a), float_bits_of(b)) {
+                (Some((ca, x)), Some((cb, y))) => ca == cb && (x - y).abs() <= 2,
+                _ => false,
+            };
+            let nonfinite_to_null = |a: &str, b: &str| b.contains("VNull") && float_bits_of(a).is_some();
+            // every differing value must be explained by one of the listed causes; the class is the first cause
+            let cause = |a: &str, b: &str| -> Option<&'static str> {
+                if f.nonascii_char && char_renorm(a, b) {
+                    Some("char-nonascii-renormalized")
+                } else if !binary && float_ulp(a, b) {
+                    Some("json-float-last-place")
+                } else if !binary && f.nonfinite && nonfinite_to_null(a, b) {
+                    Some("json-nonfinite-float")
+                } else {
+                    None
+                }
+            };
+            let explained: Option<&'static str> = match &diffs {
+                Some(d) if !d.is_empty() && d.iter().all(|(a, b)| cause(a, b).is_some()) => cause(&d[0].0, &d[0].1),
+                _ => None,
+            };
+            let _ = &all_diffs;
+            let cls = if let (true, Some(c)) = (o.rows != orig.rows, explained) {
+                c
+            } else if only_index_queries && binary && f.has_index {
                 "binary-load-empty-index"
             } else if o.schema != orig.schema && binary && f.unsupported_bin {
                 "binary-unsupported-column-type"
